@@ -474,6 +474,11 @@ class Interp:
                 # element access into an abstract heap object is handled by its model
                 cur = st.heap[cur.id]
             if not isinstance(cur, V):
+                if step[0] == "el" and hasattr(cur, "items"):
+                    sub = cur.items[step[1]]
+                    path_vals.append(sub)
+                    cur = sub
+                    continue
                 if step[0] == "i" and self.index_read_hook is not None:
                     sub = self.index_read_hook(self, st, cur, step[1])
                     path_vals.append(sub)
@@ -506,6 +511,21 @@ class Interp:
             self.write_base(st, base, val)
             return
         root = self.read_base(st, base)
+        if not isinstance(root, V) and proj[0][0] == "el" and hasattr(root, "items"):
+            items = list(root.items)
+            if len(proj) == 1:
+                items[proj[0][1]] = val
+            else:
+                cell = ("H", -1)
+                # nested write below an element: rebuild the element functionally
+                tmp = State()
+                tmp.heap[-1] = items[proj[0][1]]
+                sub = Interp.write_path
+                st.heap[-1] = items[proj[0][1]]
+                self.write_path(st, ("H", -1), proj[1:], val)
+                items[proj[0][1]] = st.heap.pop(-1)
+            self.write_base(st, base, type(root)(tuple(items), root.role))
+            return
 
         def upd(v, i):
             if i == len(proj):
